@@ -1307,8 +1307,13 @@ class ClientRequest(ClientRequestBase):
         if isinstance(body, FormData):
             body = body()
         else:
+            # the request's own Content-Type describes the body: text is
+            # encoded with the charset it announces
+            kwargs: dict[str, Any] = {}
+            if hdrs.CONTENT_TYPE in self.headers:
+                kwargs["content_type"] = self.headers[hdrs.CONTENT_TYPE]
             try:
-                body = payload.PAYLOAD_REGISTRY.get(body, disposition=None)
+                body = payload.PAYLOAD_REGISTRY.get(body, disposition=None, **kwargs)
             except payload.LookupError:
                 boundary = None
                 if hdrs.CONTENT_TYPE in self.headers:
